@@ -232,3 +232,11 @@ Fixpoint csv_write (comma : Z) (rs : list (list str)) : str :=
   | r :: rest => write_fields comma r (csv_write comma rest)
   end.
 
+
+(* side condition of the round trip: no "\r" directly before a "\n" inside a field (readLine turns that pair into "\n",
+   also inside a quoted field; a "\r" anywhere else, also as the last byte of a field, is kept) *)
+Fixpoint no_crlf (f : str) : bool :=
+  match f with
+  | [] => true
+  | c :: t => negb ((c =? b_cr) && match t with d :: _ => d =? b_nl | [] => false end) && no_crlf t
+  end.
